@@ -41,6 +41,14 @@ def load_repo():
     _loaded = sys.modules["ctparse.ctparse"]
     if os.environ.get("QAV_TEXT_LOG"):
         _install_text_log(_loaded, os.environ["QAV_TEXT_LOG"])
+    if os.environ.get("QAV_PATTERN_MUTANT"):
+        # tools/pattern_mutation.py (sensitivity self-test, never set by a registered command): swap one compiled
+        # pattern of the imported library for a mutated one
+        import json as _json
+        import regex as _regex
+        from ctparse import rule as _R
+        spec = _json.load(open(os.environ["QAV_PATTERN_MUTANT"], encoding="utf-8"))
+        _R._regex[int(spec["rid"])] = _regex.compile(spec["pattern"], _regex.VERSION1)
     return _loaded
 
 
